@@ -20,7 +20,7 @@
     The model is tied to /repo by the correspondence harness on every run (see DESIGN.md 4).
     SOURCE TIE (tools/rs2coq): the functions named below are ALSO regenerated from the Rust source on every
     run by a syn-based translator (coq/gen/Src.v) and proved EQUAL to the hand-written model functions the
-    theorems above are about ([rs_*_eq], proofs/SrcEquiv*.v) - for all inputs and both build modes; a change to
+    theorems above are about ([rs_*_eq], proofs/SrcEq*.v) - for all inputs and both build modes; a change to
     that Rust code changes the generated file and breaks these equalities.
     Here: is_fast_path, try_fast_path (number.rs); scientific_exponent (slow.rs); and through props/C11.v, C17.v, C18.v both extended-precision stages, the float helpers and the rounding primitive.  parse.rs (iterators), parse_mantissa (macros), bigint.rs and the vectors are tied by the correspondence harness only. *)
 
@@ -30,7 +30,7 @@ From Flocq Require Import Core.Core.
 From ML Require Import base.RustSem model.Fmt model.Num model.Number model.Parse model.Lemire model.Bellerophon model.Vec model.Bigint model.Slow model.Top
   spec.Decimal spec.Round spec.RoundFacts spec.DigitsSuffice gen.Consts gen.Tables gen.BTables gen.PowDump
   proofs.ParseFacts proofs.FastPathFacts proofs.EndToEnd proofs.EndToEnd2 proofs.EndToEnd3 proofs.EndToEnd4 proofs.EndToEnd5 proofs.EndToEnd6 proofs.EndToEnd7
-  proofs.LemireFacts6 proofs.Glue proofs.TruncFacts proofs.TruncFacts2 proofs.SlowFacts1 proofs.DeepFallback proofs.DeepFallback2 proofs.Final gen.Src proofs.SrcEquiv proofs.SrcEquiv2.
+  proofs.LemireFacts6 proofs.Glue proofs.TruncFacts proofs.TruncFacts2 proofs.SlowFacts1 proofs.DeepFallback proofs.DeepFallback2 proofs.Final gen.Src proofs.SrcEqBase proofs.SrcEqNumber proofs.SrcEqSci.
 Import ListNotations.
 
 Open Scope Z_scope.
